@@ -51,7 +51,9 @@ pub struct Plan {
     /// reader: stream is truncated after this many bytes (then Ok(0) for ever)
     pub capacity: Option<u64>,
     /// reader flavour: 0 = the simulated reader itself; 1 = `std::io::Chain` of two simulated readers cut at
-    /// `cut`; 2 = `BufReader` (capacity `cut` + 1) around it; 3 = `Take` around it (limit = everything).
+    /// `cut`; 2 = `BufReader` (capacity `cut` + 1) around it; 3 = `Take` around it (limit = everything);
+    /// 4 = `Chain` of two slices cut at `cut`; 5 = `BufReader<&[u8]>` chained with a `Cursor` and a slice;
+    /// 6 = a `VecDeque<u8>` whose content wraps at `cut`; 7 = `Box<dyn Read>` around a chain of slices.
     /// The std adaptors answer `size_hint`, `read_vectored` etc. the way real readers do.
     #[serde(default)]
     pub flavour: u8,
